@@ -38,6 +38,15 @@ SECOND_SPEC = copy.deepcopy(SIMPLE_SPEC)
 SECOND_SPEC["name"] = "DEV2"
 
 
+# a driver with one read-only property; sessions use it as "another driver of the same server that snoops on DEV"
+SNOOPER_SPEC = {
+    "name": "SNOOPER",
+    "chain": [{"groups": [{"attr": "g", "name": "SNOOP", "enabled": True, "vectors": [
+        {"attr": "t", "kind": "Text", "name": "INFO", "label": None, "state": "Idle", "perm": "ro", "timeout": 0, "enabled": True,
+         "elements": [{"attr": "a", "name": "WHO", "label": None, "default": "snooper", "enabled": True}]}]}]}],
+}
+
+
 class Peer:
     """A raw peer of one server connection (TCP or TTY)."""
 
